@@ -212,3 +212,7 @@ alias("C18.patch_closes_the_instance_on_every_exit", "C20.patch_restores_everyth
 import obligations.C13  # noqa: E402,F401
 
 alias("C18.uncommitted_work_is_wholly_inside_the_transaction", "C13.statement_routing_one_step", "every engine write of a statement issued inside an open transaction - the statement's own and fakesnow's comment / length bookkeeping - goes through the session's own engine connection, so a kill or ROLLBACK before COMMIT leaves none of it behind (K9)")
+
+import obligations.C19  # noqa: E402,F401
+
+alias("C18.acknowledged_commits_are_real", "C19.refused_commit_is_reported", "durability starts at COMMIT: a COMMIT the engine refused (and rolled back) must not be acknowledged, or a later process misses rows the session was told are committed")
